@@ -1,7 +1,7 @@
 CONSTANTS
   Driver = "iour"
-  Shapes <- ShapesQuick
-  MaxSteps = 7
+  Shapes <- ShapesCtl
+  MaxSteps = 6
   MaxCancel = 2
   MaxFeed = 2
   Eager = FALSE
@@ -11,4 +11,4 @@ CONSTANTS
   MutNoDropCancel = FALSE
   MutNoWaker = FALSE
 SPECIFICATION Spec
-INVARIANTS TypeOK ExtInnermost RegSound CancelOnlyVisible BadPersOnlyVisible FailFastPrompt Fused TryTake DropCancels PanicOnlyKnown OwnResult
+INVARIANTS ListenCoversPast
